@@ -87,6 +87,11 @@ prop("C08", "E-GEN",
      "Every accepted project with a root value from the families of C01 (typed values x 8 positions = value variations), C03 (plain JSON incl. escapes), C04 (annotated models), C05 (reference sites), C07 (allOf graphs) and key-shortcut x additionalProperties combinations (316k accepted projects quick): Example() succeeds and is RFC 8259; the conversion of the root and of every registered type succeeds and is JSON; each is a well-formed OpenAPI 3.0 Schema Object (keyword set, value types, resolvable $ref); the example is a valid instance with $ref resolved into the components map.",
      "Validator: JSON Schema draft-4 semantics + nullable, exact-decimal multipleOf, format as annotation; written for this check and cross-checked against python jsonschema in the thorough tier.")
 
+prop("C09", "E-ENV",
+     "deviation-bounded exhaustive exploration of map iteration orders at every range-over-map site (type-driven source rewriting through the build overlay) + all registration-order permutations + cross-process comparison",
+     "In the instrumented build every `for ... range m` over a map (11 sites today, found by go/types at check time) asks the explorer for the order: for each of ~1000 cases (projects with several valid/broken types, format and banned-rule conflicts, enum rules, allOf graphs, a slice of the annotated family, enum/regex/JSON-document/GuessSchemaType inputs) every order (all n! up to n=4, pair-complete set above) at <=1 (thorough 2) deviating sites, every permutation of the AddType/AddRule calls, two runs with heap perturbation and one run in a separate uninstrumented process must give byte-identical observables; no observable may contain an address-like token.",
+     "Heap addresses / 'every process' are a two-point comparison; map order and registration order are exhaustive within the deviation bound.")
+
 ORDER = ["C%02d" % i for i in range(1, 21)]
 
 def main():
